@@ -8,6 +8,7 @@ package main
 
 import (
 	"bufio"
+	"path/filepath"
 	"encoding/json"
 	"fmt"
 	"os"
@@ -21,7 +22,9 @@ import (
 	. "verif/harness/hlib"
 
 	"github.com/open2b/scriggo"
+	"github.com/open2b/scriggo/ast"
 	"github.com/open2b/scriggo/native"
+	"github.com/open2b/scriggo/verifhook"
 )
 
 type buildInput struct {
@@ -602,6 +605,39 @@ func init() {
 	Register("C21-sweep", func(c *Ctx) {
 		ins := sweepInputs(c)
 		reported := map[string]int{}
+		// token level: offsets of every token of the real lexer against the source
+		tokFails := 0
+		for _, in := range ins {
+			if in.Kind != "template" || len(in.Files) != 1 {
+				continue
+			}
+			src, _ := in.file(in.Name)
+			fm := formatOfExt[filepath.Ext(in.Name)]
+			res := verifhook.LexTemplateRecover([]byte(src), ast.Format(fm), in.NoShow)
+			c.Count("token-streams")
+			prevEnd := -1
+			for _, t := range res.Tokens {
+				bad := ""
+				switch {
+				case t.TxtLen > 0 && (t.Start < 0 || t.End != t.Start+t.TxtLen-1 || t.End >= len(src)):
+					bad = "offsets of a token do not delimit its text"
+				case t.TxtLen == 0 && (t.End != t.Start || t.Start < 0 || t.Start > len(src)):
+					bad = "offsets of an empty token"
+				case t.TxtLen > 0 && t.Start <= prevEnd:
+					bad = "token overlaps the previous one"
+				}
+				if bad != "" {
+					tokFails++
+					if tokFails <= 2 {
+						c.Fail("token-offsets", map[string]any{"kind": in.Kind, "name": in.Name, "files": in.Files, "src_text": src, "token": t.TypName, "start": t.Start, "end": t.End, "why": bad})
+					}
+					break
+				}
+				if t.TxtLen > 0 {
+					prevEnd = t.End
+				}
+			}
+		}
 		runBatches(c, ins, func(in buildInput, r workerResult) {
 			c.Count("evaluations")
 			if r.IsBuildErr {
